@@ -25,6 +25,9 @@ import (
 const (
 	maxArrayLen      = 1024 * 1024
 	maxBulkStringLen = 1024 * 1024 * 512
+	// maxArrayDepth is the maximum nesting depth of arrays, the replies of
+	// redis and the requests of clients are far shallower.
+	maxArrayDepth = 32
 )
 
 var (
@@ -38,6 +41,8 @@ var (
 	ErrBadArrayLen = errors.New("bad array len")
 	// ErrBadArrayLenTooLong too long array len
 	ErrBadArrayLenTooLong = errors.New("bad array len, too long")
+	// ErrBadArrayDepth for too deeply nested array
+	ErrBadArrayDepth = errors.New("bad array, nested too deeply")
 
 	// ErrBadBulkStringLen for invalid bulk string len
 	ErrBadBulkStringLen = errors.New("bad bulk string len")
@@ -61,6 +66,8 @@ var CRLF = []byte{CR, LF}
 type decoder struct {
 	br  *Reader
 	err error
+	// depth is the nesting depth of the array being decoded.
+	depth int
 }
 
 func newDecoder(r io.Reader, bufSize int) *decoder {
@@ -231,14 +238,22 @@ func (d *decoder) decodeArray() ([]RespValue, error) {
 	case n == -1:
 		return nil, nil
 	}
+	// the decoder recurses once per nesting level, don't let the peer
+	// choose how deep.
+	if d.depth >= maxArrayDepth {
+		return nil, ErrBadArrayDepth
+	}
+	d.depth++
 	array := make([]RespValue, n)
 	for i := range array {
 		r, err := d.decode()
 		if err != nil {
+			d.depth--
 			return nil, err
 		}
 		array[i] = *r
 	}
+	d.depth--
 	return array, nil
 }
 
